@@ -132,6 +132,42 @@ CHECKS["C16"] = (
     "DESIGN.md 6/C16",
 )
 
+CHECKS["C11"] = (
+    "exploration",
+    "exhaustive enumeration: every array over a 5-letter value alphabet for even lengths up to the bound for all 7 filters (1-D), and all 49 filter pairs x depth pairs x picture sizes x contents incl. an impulse at every position (2-D with padding); round-trip identity plus an independent polyphase reference transform and subband-shape comparison",
+    "idwt_pad_removal(idwt(dwt(dwt_pad_addition(p)))) == p and synthesis(analysis(a)) == a for every enumerated input; every dwt/idwt result is also compared with an independent reference lifting implementation, and subband shapes with subband_width/height.",
+    "Sample values from {-2^20,-1,0,1,2^20}; sizes <= 5x5 (quick) / 7x7 (thorough) with depths up to 2x2 / 4x3.",
+    "DESIGN.md 6/C11",
+)
+CHECKS["C12"] = (
+    "exploration",
+    "exhaustive enumeration of the coefficient window [0, 5*qf/4] (both signs) for every index up to 84/100, lifted to all integers by a written periodicity argument; boundary neighbourhoods for indices to 255; monotonicity to index 1023",
+    "For every enumerated (index, coefficient): sign kept or zero, 4*|x - dequant(quant(x))| < quant_factor, index 0 exact; implementation equals the standard's closed form; quant_factor strictly increasing for 0..1023 and inverse_quant(1, i) strictly increasing from the tree's MINIMUM_DISTINCT_QINDEX.",
+    "Periodicity lemma in models/quantref.py (verified numerically on every run for small indices); indices above the window bound are only covered at boundary neighbourhoods (marked non-exhaustive in evidence).",
+    "DESIGN.md 6/C12",
+)
+CHECKS["C13"] = (
+    "exploration",
+    "exhaustive enumeration of a per-axis box (extent x dwt_depth x dwt_depth_ho x slices x level x component), a 2-D box for the same-dimensions flag, dwt output shapes, and a numerator x denominator x slices box for slice_bytes",
+    "Slice bounds partition every subband into in-order disjoint covering ranges; subband sizes equal the padded picture produced by the real dwt; slices_have_same_dimensions equals its definition; low-delay slice_bytes are non-negative and sum to floor(slices*n/d).",
+    "Box: extent <= 64 (160), slices <= 80 (200), depths <= 4; flag box 24x24 (32x32).",
+    "DESIGN.md 6/C13",
+)
+CHECKS["C25"] = (
+    "fault_enumeration",
+    "exhaustive enumeration of encoder streams (configuration product) and 0/1-deviation sets of builder seeds through the real vc2-bitstream-validator main() in-process; exit status, written files (read back) and located explanation compared with the library decoder",
+    "Conformant input: exit 0 and exactly one raw+json pair per decoded picture, indexed from 0 in decode order, whose contents read back equal the library decoder's pictures/parameters, for three output filename patterns; non-conformant: exit 2 with a bit offset, non-empty summary and viewer hint; never status 3 or an escaping exception.",
+    "The library decoder decides conformance (bound to the standard by C01/C02); resource bound as C02.",
+    "DESIGN.md 6/C25",
+)
+CHECKS["C26"] = (
+    "fault_enumeration",
+    "exhaustive enumeration of the 0/1-deviation sets and short strings through the real vc2-bitstream-viewer main() in-process, default options on every input and seven other option sets on a fixed subset",
+    "The viewer's status must be 0, 2, 3 or 4 -- never 255 (internal error), never an escaping exception, never exceeding the 30 s horizon.",
+    "Declared sizes bounded by the C06 resource monitor on the deserialiser.",
+    "DESIGN.md 6/C26",
+)
+
 NOT_YET = "check not built yet in this revision (planned, see DESIGN.md section 6)"
 
 
